@@ -16,6 +16,9 @@ RULE = ("every library module under ioflo/ (not in a sub-package test dir, not _
         "interpreter with and without -S; plus random import orders of 6-12 modules compared with each module's "
         "namespace when imported alone; distinct = distinct (module, flags) or distinct order; non-trivial = "
         "interpreter verified cold (collections.abc not loaded before the import)")
+META = {"engine": "G import", "technique": "one fresh interpreter per module / per import order; exit status, sys.modules cold-precondition and audit-hook import log observed",
+        "level_text": "every library module is imported alone in a fresh interpreter (with and without -S) and random orders of module sets are imported in fresh interpreters; the set of modules is recomputed from the tree on every run (exhaustive over modules)",
+        "level_note": "trusts the interpreter's import machinery; third-party dependencies are those installed in /venv"}
 
 CHILD = r'''
 import sys, json
